@@ -109,6 +109,23 @@ func c05Mutants(E fake.Entry, signer kit.Signer, other kit.Signer, salt int64, e
 		m.Content[bi/8] ^= 1 << uint(bi%8)
 		out = append(out, c05Mutant{fmt.Sprintf("flip content bit %d", bi), "bitflip-content", "tx", m})
 	}
+	// bytes inserted into / removed from the content under the unchanged signature: a parser that normalises the
+	// content before checking the signature would execute the same transactions again under a new entry hash
+	for off := 0; off <= len(E.Content); off++ {
+		for _, ins := range []string{" ", "\n", "\t", "\r\n  "} {
+			if !thorough && ins != " " && off%3 != 0 {
+				continue
+			}
+			m := cloneEntry(E)
+			m.Content = append(append(append([]byte{}, E.Content[:off]...), ins...), E.Content[off:]...)
+			out = append(out, c05Mutant{fmt.Sprintf("insert %q at content offset %d", ins, off), "content-padded", "tx", m})
+		}
+		if off < len(E.Content) && (thorough || off%2 == 0) {
+			m := cloneEntry(E)
+			m.Content = append(append([]byte{}, E.Content[:off]...), E.Content[off+1:]...)
+			out = append(out, c05Mutant{fmt.Sprintf("delete content byte %d", off), "content-byte-deleted", "tx", m})
+		}
+	}
 	st := func(label string, ext [][]byte) {
 		m := fake.Entry{Content: append([]byte{}, E.Content...)}
 		for _, x := range ext {
